@@ -130,7 +130,7 @@ func (s *sched) wait(match func(evt) bool) (evt, error) {
 			return e, nil
 		}
 	}
-	timeout := time.After(60 * time.Second) // watchdog for harness mistakes only (a correct schedule never waits)
+	timeout := time.After(20 * time.Second) // watchdog for harness mistakes only (a correct schedule never waits)
 	for {
 		select {
 		case e := <-s.events:
